@@ -199,7 +199,14 @@ int mantis_ctr_init(MantisCTR_t *ctr)
     ctr->vtable = vtable;
 
     /* Initialize the CTR mode context */
-    return (*(vtable->init))(ctr);
+    if ((*(vtable->init))(ctr))
+        return 1;
+
+    /* Initialization failed: leave the object inert so that it is
+       safe to pass to the cleanup function or to any other function */
+    ctr->vtable = 0;
+    ctr->ctx = 0;
+    return 0;
 }
 
 void mantis_ctr_cleanup(MantisCTR_t *ctr)
